@@ -1,11 +1,11 @@
 \* C05: the complete IMAP command alphabet, one user, server without TLS and
-\* server requiring TLS with a remote peer.  The step clauses are asserted
+\* server requiring TLS with a remote / a local peer.  The step clauses are asserted
 \* inside Next (see Do / Auth in Conn.tla).
 CONSTANTS
   Service = "imap"
   Users = {"u1"}
   Admins = {}
-  Envs = {"plain", "tlsremote"}
+  Envs = {"plain", "tlsremote", "tlslocal"}
   Cmds <- ImapCmds
   Forms = {"LOGIN", "PLAIN", "LOGINMECH"}
   Kinds = {"right", "wrongpw"}
